@@ -606,7 +606,7 @@ pub fn plan(tier: &str) -> Plan {
         Plan { ser_all: 400, ser_fixed: 600, foreign: 600, interleaved: 200, big: 6, nmsgs: 40,
                lim: Limits { max_len: 70000, max_chunks: 48 } }
     } else {
-        Plan { ser_all: 60, ser_fixed: 120, foreign: 120, interleaved: 40, big: 1, nmsgs: 24,
+        Plan { ser_all: 60, ser_fixed: 120, foreign: 120, interleaved: 40, big: 2, nmsgs: 24,
                lim: Limits { max_len: 70000, max_chunks: 24 } }
     }
 }
@@ -905,7 +905,7 @@ pub fn generate(kind: &str, tier: &str, seed: u64, shard: u64, nshards: u64, pat
                 let mut run = Run::new(&t, "fixed", true);
                 let sizes: &[usize] = if tier == "thorough" { &[16777215, 1 << 20, 16777214, 65536 * 3 + 1] } else { &[16777215, 300000] };
                 // the first run of every shard uses the largest legal chunk size (a 16 MiB message in ONE chunk)
-                let cs = if r == 0 { 0x7FFFFFFF } else { *rng.pick(&[65536u32, 1 << 20, 0x7FFFFFFF, 4096 * 16, 16777215, 16777216]) };
+                let cs = if r == 0 { 0x7FFFFFFF } else { *rng.pick(&[65536u32, 65537, 100_000, 1 << 20, 4096 * 16, 16777215, 16777216]) };
                 let mut steps = vec![SerStep { m: M { ty: 1, msid: 0, ts: 0, data: cs.to_be_bytes().to_vec() }, fu: true, cd: false, setcs: Some(cs) }];
                 for (i, &sz) in sizes.iter().enumerate() {
                     let mut d = vec![(r * 7 + i) as u8; sz];
@@ -919,7 +919,17 @@ pub fn generate(kind: &str, tier: &str, seed: u64, shard: u64, nshards: u64, pat
                 steps.push(SerStep { m: M { ty: 9, msid: 1, ts: 9, data: vec![0; 16777216] }, fu: false, cd: false, setcs: None });
                 msgs += steps.len();
                 run_serializer(&mut run, &steps, &mut |_| false);
-                let all = do_feed(&mut run, &mut rng, if r % 2 == 0 { Part::OneShot } else { Part::Random });
+                // even runs in one piece; odd runs in big pieces (60 000 .. 140 000 bytes: a chunk is partly buffered with more than
+                // 64 KiB of it already there) or in the usual small ones
+                let all = if r % 2 == 0 { do_feed(&mut run, &mut rng, Part::OneShot) } else if rng.chance(2, 3) {
+                    let stream = run.stream.clone();
+                    let mut pieces = Vec::new();
+                    let mut left = stream.len();
+                    while left > 0 { let n = (rng.range(60_000, 140_000) as usize).min(left); pieces.push(n); left -= n; }
+                    let (evs, all) = feed_phase(&stream, &pieces);
+                    for e in evs { run.push(e); }
+                    all
+                } else { do_feed(&mut run, &mut rng, Part::Random) };
                 run.finish(&mut t, &mut c0, all);
                 runs += 1;
             }
